@@ -1888,6 +1888,17 @@ class KmipEngine(object):
                     managed_object,
                     attribute_name
                 )
+                if existing_attributes is None:
+                    raise exceptions.KmipError(
+                        status=enums.ResultStatus.OPERATION_FAILED,
+                        reason=enums.ResultReason.ITEM_NOT_FOUND,
+                        message=(
+                            "The '{}' attribute is not supported by the "
+                            "server and cannot be modified.".format(
+                                attribute_name
+                            )
+                        )
+                    )
                 if 0 <= attribute_index < len(existing_attributes):
                     self._set_attribute_on_managed_object_by_index(
                         managed_object,
